@@ -109,6 +109,7 @@ def modeSpec : BodyReader → String
 
 structure C06St where
   expect : Option (Except Fault BodyReader × Nat) := none
+  readSome : Bool := false     -- body bytes were delivered since the head
   fail : Option String := none
 
 def oracleC06 (c : TCase) : Verdict :=
@@ -140,9 +141,14 @@ def oracleC06 (c : TCase) : Verdict :=
           let verdict := rfcFraming (ver == 0) m status fr
           (match verdict with
            | .error _ => { s with fail := some s!"non-numeric Content-Length accepted: {t.raw.take 160}" }
-           | .ok rd => { s with expect := some (.ok rd, status) })
+           | .ok rd => { s with expect := some (.ok rd, status), readSome := false })
         | ["fault", e] =>
           if !e.startsWith "api:" then { s with fail := some s!"panic: {t.raw.take 120}" } else
+          -- repeated framing fields are outside the property's quantification: refusing such a head is as good as
+          -- picking one of the values
+          let wireFields : List Hdr := match tryParseResponse 128 w with | .ok (some (_, r)) => r.fields | _ => []
+          if (wireFields.filter (·.name == "transfer-encoding")).length > 1 || (wireFields.filter (·.name == "content-length")).length > 1 then
+            { s with expect := none } else
           -- must be a non-numeric content-length: re-derive from the raw head via the model's scanner is
           -- avoided here; the raw head's Content-Length value is looked up textually
           let txt := String.ofList (w.map fun b => Char.ofNat b.toNat)
@@ -162,7 +168,7 @@ def oracleC06 (c : TCase) : Verdict :=
       | "bread" =>
         -- a length-delimited body: what remains is what was expected minus what was delivered
         (match s.expect, t.res with
-         | some (.ok (.len n), st), ["bytes", i, _] => { s with expect := some (.ok (.len (n - i.toNat!)), st) }
+         | some (.ok (.len n), st), ["bytes", i, _] => { s with expect := some (.ok (.len (n - i.toNat!)), st), readSome := s.readSome || i != "0" }
          | _, _ => s)
       | "canproceed" =>
         if t.st != "recvBody" then s else
@@ -173,7 +179,12 @@ def oracleC06 (c : TCase) : Verdict :=
       | "mode" =>
         match s.expect, t.res with
         | some (.ok rd, _), ["str", mtxt] =>
-          if mtxt == modeSpec rd then s else { s with fail := some s!"body mode {mtxt}, the rules give {modeSpec rd}" }
+          -- the kind of framing is what the property fixes; for a length-delimited body the number reported
+          -- may be what remains or what was declared
+          let sameKind := match rd with
+            | .len _ => mtxt.startsWith "LengthDelimited("
+            | _ => mtxt == modeSpec rd
+          if mtxt == modeSpec rd || (s.readSome && sameKind) then s else { s with fail := some s!"body mode {mtxt}, the rules give {modeSpec rd}" }
         | _, _ => s
       | _ => s) ({} : C06St)
     match st.fail with | some w => .fail w | none => .ok
